@@ -20,7 +20,9 @@ RULE = ('family = one dataset src.map(u0).map(fresh).cache(keep_mem_free=K) (fre
         'the same through copy() and copy(freeze=True), iteration through '
         'prefetch(1,b) and prefetch(w,b) under the thread simulator, in-place mutation '
         'of the returned example, and the fault "available memory drops to / below '
-        'the threshold" at any step, also in the middle of a prefetch iteration '
+        'the threshold" at any step, also in the middle of a prefetch iteration and '
+        'while the missing example of an index access is being loaded (that example '
+        'must not be cached any more) '
         '(separate flapping configuration where it recovers); an iterator over the cache '
         'held open and advanced step by step between other accesses; numpy integer '
         'indices; a second independent cache created after the first one crossed its '
@@ -29,7 +31,7 @@ RULE = ('family = one dataset src.map(u0).map(fresh).cache(keep_mem_free=K) (fre
         'call counter per index, memory state. Non-trivial = at least one access hit '
         'an already frozen example or the memory fault fired; distinct = distinct '
         '(dataset, history).')
-PROBES = ['eager_cache_of_a_raw_container_dataset', 'concurrent_access_by_key', 'eager_cache_of_duplicate_keys_without_length', 'two_clients_same_index_at_once', 'held_iterator_met_entry_cached_meanwhile', 'second_cache_created_after_first_crossed',
+PROBES = ['memory_dropped_while_the_example_was_loaded', 'eager_cache_of_a_raw_container_dataset', 'concurrent_access_by_key', 'eager_cache_of_duplicate_keys_without_length', 'two_clients_same_index_at_once', 'held_iterator_met_entry_cached_meanwhile', 'second_cache_created_after_first_crossed',
           'cache_hit_after_threshold', 'cache_miss_after_threshold',
           'negative_index_hits_positive_entry', 'key_hits_index_entry',
           'copy_shares_cache', 'prefetch_worker_filled_cache',
@@ -139,7 +141,12 @@ def gen_ops(rng, n, dict_source, k, flap):
     # memory fault somewhere (one-way), or flapping
     if rng.random() < 0.7:
         pos = rng.randrange(0, len(ops) + 1)
-        ops.insert(pos, ['mem_low', rng.choice(['below', 'equal'])])
+        if not flap and rng.random() < 0.3:
+            # the threshold is crossed WHILE an example is being loaded (by the
+            # load itself): that example must not be cached any more
+            ops.insert(pos, ['get_drop', [rng.randrange(n), rng.choice(['below', 'equal'])]])
+        else:
+            ops.insert(pos, ['mem_low', rng.choice(['below', 'equal'])])
         if flap:
             pos2 = rng.randrange(pos + 1, len(ops) + 1)
             ops.insert(pos2, ['mem_ok', None])
@@ -450,6 +457,21 @@ def _run_lazy(case, ds, ctx, m):
             m.low = True
             m.was_low = True
             fired['mem_low'] += 1
+        elif op == 'get_drop':
+            i_, mode_ = arg
+            if not m.low and i_ not in m.frozen and i_ not in m.maybe and i_ not in m.unknown:
+                def _hook(stage, ids, mode_=mode_, m=m, thr=thr):
+                    Mem.available = thr if mode_ == 'equal' else thr / 4
+                    m.low = True
+                    m.was_low = True
+                    fired['mem_low_during_load'] += 1
+                    m.probes['memory_dropped_while_the_example_was_loaded'] = 1
+                    ctx.on_call = None
+                ctx.on_call = _hook
+            try:
+                acc(i_, lambda: ds[i_], 'index')
+            finally:
+                ctx.on_call = None
         elif op == 'mem_ok':
             Mem.available = 48 * GiB
             m.low = False
